@@ -525,8 +525,39 @@ class FnAnalysis:
                     st.iv.pop(tgt, None)
                     st.pay.pop(tgt, None)
         iv, pay = eng.call_result(self, n, t, args, pays, dst_ty)
+        if n.endswith("ArrayMap<I, T> as core::ops::index::Index<I>>::index") and t["args"]:
+            hull = self.const_table_hull(t["args"][0])
+            if hull is not None:
+                iv = hull
         self.assign(st, d, dst_ty, (iv, pay, None))
         return st
+
+    def const_table_hull(self, op, depth=0):
+        """If the operand is (a reference to) a decoded constant table of integers, the hull of its entries."""
+        from terms import scalar
+        if "const" in op:
+            v = op["const"].get("val")
+            while isinstance(v, dict) and "$ref" in v and len(v) == 1:
+                v = v["$ref"]
+            if isinstance(v, dict) and "array" in v:
+                v = v["array"]
+            if isinstance(v, list) and v:
+                xs = [scalar(x) for x in v]
+                if all(isinstance(x, int) and not isinstance(x, bool) for x in xs):
+                    return Iv(min(xs), max(xs))
+            return None
+        p = op.get("copy") or op.get("move")
+        if p is None or depth > 6 or [e for e in p["p"] if e != "*"]:
+            return None
+        ds = self.defs.get(p["l"], [])
+        if len(ds) != 1:
+            return None
+        d = ds[0]
+        if "use" in d:
+            return self.const_table_hull(d["use"], depth + 1)
+        if "ref" in d:
+            return self.const_table_hull({"copy": d["ref"]}, depth + 1)
+        return None
 
     # ---------------------------------------------------------------- branches
     def refine_edge(self, st, t, value, is_otherwise, case_values):
